@@ -28,27 +28,28 @@ var genSwitches = map[string]bool{
 	"default": false, "default.bool": false, "default.int": false, "default.num": false,
 	"default.string": false, "default.enum": false, "default.list": false, "default.struct": false,
 	"default.union": false, "default.onRequired": false, "def.enum": false, "name.case": false,
-	"array.of.struct": false,
+	"array.of.struct": false, "dict.of.struct": false,
 	// off by default: each is a known trouble spot of cog or of a schema language
-	"struct.empty":        true, // every front-end maps a property-less object to `any`
-	"def.scalar":          true, // named scalar alias (constraints on it are never validated, C08)
-	"def.collection":      true, // named array / dict alias
-	"name.collide":        true, // foo_bar + fooBar in one struct (Go identifier collision, C02)
-	"name.keyword":        true, // field names that are Python/Go keywords (from, class, type)
-	"name.dash":           true, // field names that are not identifiers (with-dash)
-	"enum.oddNames":       true, // enum members "", "<", "with space", "1x"
-	"int.hugeBounds":      true, // bounds beyond 2^53
+	"struct.empty":         true, // every front-end maps a property-less object to `any`
+	"def.scalar":           true, // named scalar alias (constraints on it are never validated, C08)
+	"def.collection":       true, // named array / dict alias
+	"name.collide":         true, // foo_bar + fooBar in one struct (Go identifier collision, C02)
+	"name.keyword":         true, // field names that are Python/Go keywords (from, class, type)
+	"name.dash":            true, // field names that are not identifiers (with-dash)
+	"enum.oddNames":        true, // enum members "", "<", "with space", "1x"
+	"int.hugeBounds":       true, // bounds beyond 2^53
 	"oneOfScalars.overlap": true, // int|num, string|date-time: more than one branch accepts a value
-	"disc.ambiguous":      true, // union branches with two candidate discriminator fields (C03)
-	"default.emptyList":   true,
-	"default.struct.list": true, // a list inside a struct default (cog's CUE front-end: "closed lists are not supported")
+	"disc.ambiguous":       true, // union branches with two candidate discriminator fields (C03)
+	"default.emptyList":    true,
+	"default.struct.list":  true, // a list inside a struct default (cog's CUE front-end: "closed lists are not supported")
 	// known-bad constructs: cog generates code that does not compile / import (see LAB.md, "Known failures")
-	"dict.of.struct":          true, // map whose values are structs/unions/maps of those: strict unmarshaller leaves `strconv` unused
-	"default.list.nonString":  true, // list default of numbers/bools is emitted as []string{…}
-	"enumI.signCollision":     true, // 1 and -1 in one integer enum: member names collide (JSON Schema / OpenAPI)
-	"def.enum.single":         true, // named one-member string enum: CUE reads a constant, references to it break the Go output
+	"default.list.nonString":   true, // list default of numbers/bools is emitted as []string{…}
+	"enumI.signCollision":      true, // 1 and -1 in one integer enum: member names collide (JSON Schema / OpenAPI)
+	"def.enum.single":          true, // named one-member string enum: CUE reads a constant, references to it break the Go output
 	"default.struct.enumField": true, // struct default overriding an enum-typed member: Go type `unknown`
-	"name.defCase":            true, // definition names like sub_item / dataPoint: Python refers to the unconverted name
+	"name.defCase":             true, // definition names like sub_item / dataPoint: Python refers to the unconverted name
+	"dict.nonScalar.noArray":   true, // a map of non-scalars in a package without any array of non-scalars: "strconv" imported and not used
+	"default.onRecursiveRef":   true, // default on a reference that closes a cycle: CUE reports a structural cycle
 }
 
 func defaultGenOpts() GenOpts {
@@ -89,7 +90,7 @@ type srcGen struct {
 	r        *rng
 	o        GenOpts
 	d        *Defs
-	cur      int             // index of the definition being filled in
+	cur      int              // index of the definition being filled in
 	branchOf map[string]Field // pending discriminator field of union-branch definitions
 	pendKind map[string]string
 	wantDef  map[*Src]bool // field types that must receive a default in the post-pass
@@ -165,6 +166,7 @@ func genDefs(seed uint64, index int, o GenOpts) *Defs {
 		}
 	}
 	g.linkUnreferenced()
+	g.fixStrconv()
 	g.addDefaults()
 	return g.d
 }
@@ -968,6 +970,78 @@ func (d *Defs) reachable() map[string]bool {
 	return seen
 }
 
+// scalarLike: what cog's strict unmarshaller treats as a scalar element (scalar or enum after
+// resolving references).
+func (d *Defs) scalarLike(e *Src) bool {
+	e = d.resolve(e)
+	if e == nil {
+		return true
+	}
+	switch e.Kind {
+	case SAny, SBool, SString, SConst, SInt, SNum, SEnumS, SEnumI:
+		return true
+	}
+	return false
+}
+
+// strconvShape reports whether struct members contain a map of non-scalars / an array of
+// non-scalars (the strict unmarshaller template imports strconv for the former and only uses it
+// for the latter).
+func (d *Defs) strconvShape() (nonScalarMap, nonScalarArray bool) {
+	var visit func(s *Src)
+	visit = func(s *Src) {
+		switch s.Kind {
+		case SArray:
+			in := d.resolve(s.Elem) // arrays of arrays count by their innermost element
+			for in != nil && in.Kind == SArray {
+				in = d.resolve(in.Elem)
+			}
+			if in != nil && !d.scalarLike(in) {
+				nonScalarArray = true
+			}
+			visit(s.Elem)
+		case SDict:
+			in := d.resolve(s.Elem) // maps of maps likewise
+			for in != nil && in.Kind == SDict {
+				in = d.resolve(in.Elem)
+			}
+			if in != nil && !d.scalarLike(in) {
+				nonScalarMap = true
+			}
+			visit(s.Elem)
+		case SStruct:
+			for _, f := range s.Fields {
+				visit(f.Ty)
+			}
+		}
+	}
+	for _, it := range d.Items {
+		if it.Ty.Kind == SStruct {
+			visit(it.Ty)
+		}
+	}
+	return
+}
+
+// fixStrconv routes around cog's unused-import defect: a term with a map of non-scalars gets an
+// array of non-scalars as well (unless the bare shape is asked for).
+func (g *srcGen) fixStrconv() {
+	if !g.o.avoid("dict.nonScalar.noArray") {
+		return
+	}
+	m, a := g.d.strconvShape()
+	if !m || a {
+		return
+	}
+	var ty *Src
+	if name := g.anyStructDef(1); name != "" {
+		ty = srcArray(srcRef(name))
+	} else {
+		ty = srcArray(srcStruct(Field{Name: "v", Ty: srcBool(), Required: true}))
+	}
+	g.addRootField(Field{Ty: ty, Required: g.r.chance(30)})
+}
+
 // linkUnreferenced makes every definition reachable from the root (the JSON Schema front-end only
 // declares what the root reaches).
 func (g *srcGen) linkUnreferenced() {
@@ -997,6 +1071,7 @@ func (g *srcGen) addDefaults() {
 		return
 	}
 	dg := newDocGen(g.d, g.r, DocOpts{NoForced: true, Plain: true})
+	curDef := ""
 	var visit func(s *Src)
 	visit = func(s *Src) {
 		switch s.Kind {
@@ -1020,6 +1095,9 @@ func (g *srcGen) addDefaults() {
 				if f.Required && !want && !g.r.chance(35) {
 					continue
 				}
+				if f.Ty.Kind == SRef && g.o.avoid("default.onRecursiveRef") && g.d.reachableFrom(f.Ty.Ref)[curDef] {
+					continue
+				}
 				if v, ok := g.defaultFor(dg, f.Ty); ok {
 					f.Default = &v
 				}
@@ -1027,8 +1105,25 @@ func (g *srcGen) addDefaults() {
 		}
 	}
 	for _, it := range g.d.Items {
+		curDef = it.Name
 		visit(it.Ty)
 	}
+}
+
+func (d *Defs) reachableFrom(name string) map[string]bool {
+	seen := map[string]bool{}
+	var visit func(n string)
+	visit = func(n string) {
+		if seen[n] {
+			return
+		}
+		seen[n] = true
+		if t := d.lookup(n); t != nil {
+			d.refsOf(t, visit)
+		}
+	}
+	visit(name)
+	return seen
 }
 
 func isPlainScalar(s *Src) bool {
